@@ -242,7 +242,7 @@ class StrSummaries:
         ex, S = self.ex, self.summ
         n = name.strip()           # patterns below are written against the raw MIR callee path
         # ---- char methods (pure; also usable on chars that did not come from a Text)
-        m = re.match(r"^char::methods::<impl char>::(is_ascii_whitespace|is_ascii_digit|len_utf8|to_digit|is_ascii_hexdigit|is_whitespace)$", n)
+        m = re.match(r"^char::methods::<impl char>::(is_ascii_whitespace|is_ascii_digit|len_utf8|to_digit|is_digit|is_ascii_hexdigit|is_whitespace)$", n)
         if m:
             c = self.deref(st, A[0])
             if not isinstance(c, Int):
@@ -258,6 +258,11 @@ class StrSummaries:
                 if not ex.feasible(st, z3.UGE(c.t, 0x80)):
                     return Int(z3.BitVecVal(1, 64), 64, False)
                 return Int(len_utf8(c.t), 64, False)
+            if meth == "is_digit":
+                rd = z3.simplify(A[1].t)
+                if not z3.is_bv_value(rd):
+                    raise Unsupported("is_digit with a symbolic radix")
+                return Bool(digit_value(c.t, rd.as_long())[0])
             if meth == "to_digit":
                 rd = A[1]
                 if not z3.is_bv_value(z3.simplify(rd.t)):
@@ -355,6 +360,31 @@ class StrSummaries:
             if meth == "len":
                 return Int(t.byte_len(), 64, False)
             return Bool(z3.BoolVal(t.lo == t.hi))
+        m = re.match(r"^core::str::<impl str>::strip_prefix::<char>$", n)
+        if m:
+            cs = self.chars_of(st, A[0], "strip_prefix")
+            if cs is None:
+                return NotHandled
+            if not cs:
+                return S.option("&str")
+            rest = self.ref(Text(SymText(ex.fresh_name("stripped"), cs[1:]), 0, len(cs) - 1, "str"), "stripped")
+            return S.sym_option(st, "Option<&str>", cs[0] == A[1].t, rest)
+        m = re.match(r"^<(?:std::str::)?Chars<'?_?> as Iterator>::(all|any)::<", n)
+        if m:
+            it = self.deref(st, A[0])
+            if not isinstance(it, CharsIt):
+                return NotHandled
+            terms = []
+            for c in it.sym.chars[it.i:it.hi]:
+                alts = S.run_closure(st, A[1], [Int(c, 32, False)])
+                if len(alts) != 1 or alts[0][0] is not st:
+                    raise Unsupported("Chars::%s: the predicate forked" % m.group(1))
+                terms.append(alts[0][1].t)
+            r0 = A[0]
+            ex.set_at(st, r0.box, r0.path, CharsIt(it.sym, it.hi, it.hi, it.base, it.indices))
+            if m.group(1) == "all":
+                return Bool(z3.And(*terms) if terms else z3.BoolVal(True))
+            return Bool(z3.Or(*terms) if terms else z3.BoolVal(False))
         m = re.match(r"^<(?:std::str::)?(Chars|CharIndices)<'?_?> as Iterator>::next$", n)
         if m:
             it = self.deref(st, A[0])
